@@ -243,7 +243,7 @@ func (rp *reqPool) pick(r *R, n int) []Req {
 func discriminating(r *R, cfgs []Cfg) *reqPool {
 	type st struct{ srv *mwServer }
 	var states []*mwServer
-	states = append(states, newServer(new(cors.Middleware).Wrap))
+	states = append(states, newServer(zeroMW().Wrap))
 	for _, c := range cfgs {
 		for _, dbg := range []bool{false, true} {
 			m, err, _ := newMW(c)
@@ -342,6 +342,7 @@ func (e c07) genSweep(seed, idx uint64) any {
 }
 
 func (e c07) Gen(r *R, tier string) any {
+	observeUnknownAPI = true
 	if r.Run%4 == 3 {
 		return e.genSweep(r.Seed, r.Run/4)
 	}
@@ -753,10 +754,14 @@ type seamHandler struct {
 	task  int
 	reent []ReentOp
 	n     *int
+	note  *string
 }
 
 func (h seamHandler) ServeHTTP(w http.ResponseWriter, _ *http.Request) {
 	*h.n++
+	if _, ok := w.(harnessWriter); !ok {
+		*h.note = fmt.Sprintf("handler-got-a-replacement-writer(%T)", w)
+	}
 	h.s.yield("seam:handler", "seam")
 	for _, re := range h.reent {
 		if re.Seam == "handler" {
@@ -804,11 +809,12 @@ func (s *sched) doReq(task int, op COp) {
 		}
 	}
 	invoked := 0
+	wnote := ""
 	var resp Resp
 	pan := catch(func() {
 		// odd requests of a task go through the task's long-lived wrapped handler
 		// (Wrap called once, before the run started), even ones through a fresh Wrap
-		inner := seamHandler{s, task, op.Reent, &invoked}
+		inner := seamHandler{s, task, op.Reent, &invoked, &wnote}
 		if t := s.tasks[task]; t.opIdx%2 == 1 && s.wrapped[task] != nil {
 			s.inner[task].h = inner
 			s.wrapped[task].ServeHTTP(w, q.build())
@@ -824,7 +830,7 @@ func (s *sched) doReq(task int, op COp) {
 		if !w.snapped {
 			fp = headerFP(w.h)
 		}
-		resp = Resp{Status: w.status, Headers: fp, Body: string(w.body), Handler: invoked}
+		resp = Resp{Status: w.status, Headers: fp, Body: string(w.body), Handler: invoked, WH: w.extraWH(), W: wnote}
 	}
 	h.Output = resp.String()
 	s.seq++
@@ -858,7 +864,7 @@ func (s *sched) runTask(t *ctask) {
 
 func newInitMW(p *C07Plan) (*cors.Middleware, bool) {
 	if p.InitCfg < 0 || p.InitCfg >= len(p.Cfgs) {
-		return new(cors.Middleware), true
+		return zeroMW(), true
 	}
 	m, err, pan := newMW(p.Cfgs[p.InitCfg])
 	if err != nil || pan != nil {
@@ -988,7 +994,7 @@ func (r *refModel) twinCheck(state string) {
 	}
 	r.twinChecked[state] = true
 	cfg, debug := r.docState(state)
-	twin := new(cors.Middleware)
+	twin := zeroMW()
 	if cfg != nil {
 		m, err, pan := newMW(*cfg)
 		if m == nil || err != nil || pan != nil {
@@ -1107,6 +1113,7 @@ func (r *refModel) step(state string, h histOp) (bool, string) {
 var reqTable map[string]Req
 
 func (e c07) Exec(plan any, c *Ctx) *Violation {
+	observeUnknownAPI = true
 	p := plan.(*C07Plan)
 	s, ok := newSched(p, c, false)
 	if !ok {
